@@ -1,11 +1,25 @@
 #!/bin/bash
-# MANIFEST.setup_cmd: warm the offline build caches the checks use (MIR dump target dir).
+# MANIFEST.setup_cmd: warm the offline build caches the checks use
+#  (1) the MIR dump target dir, (2) the test target dir used by native replay (both overlay tests).
 cd "$(dirname "$0")"
 export CARGO_NET_OFFLINE=true
 python3-vt - <<'PY'
-import sys
+import sys, os, subprocess
 sys.path.insert(0, 'engines/mirsmt')
+sys.path.insert(0, 'engines')
 import snapshot
 mir, src, info = snapshot.mir_dump()
 print('MIR dump ready:', mir, info)
+with snapshot.Lock('replay.lock'):
+    s = snapshot.snapshot_src()
+    os.makedirs(os.path.join(s, 'tests'), exist_ok=True)
+    for f in ('verif_replay.rs', 'verif_grpc.rs'):
+        open(os.path.join(s, 'tests', f), 'w').write(open(os.path.join('engines', 'replay', f)).read())
+    env = dict(os.environ, CARGO_TARGET_DIR=os.path.join(snapshot.CACHE, 'target-test'), CARGO_NET_OFFLINE='true')
+    r = subprocess.run(['cargo', 'test', '--offline', '--no-run', '--test', 'verif_replay', '--test', 'verif_grpc'], cwd=s, env=env,
+                       capture_output=True, text=True)
+    print('replay test build:', 'ok' if r.returncode == 0 else r.stderr[-2000:])
+    for f in ('verif_replay.rs', 'verif_grpc.rs'):
+        os.unlink(os.path.join(s, 'tests', f))
+    sys.exit(0 if r.returncode == 0 else 1)
 PY
